@@ -1,6 +1,7 @@
 package main
 
 import (
+	"bytes"
 	_ "embed"
 	"encoding/json"
 	"regexp/syntax"
@@ -345,6 +346,48 @@ func GenHaystack(r *RNG, re *syntax.Regexp, asciiOnly bool) []byte {
 			h = sampleMatch(r, re, h, &b)
 		}
 		if r.Chance(50) {
+			h = append(h, ctxBytes[r.Intn(len(ctxBytes))]...)
+		}
+	case mode < 80:
+		// a failed attempt directly followed by (or overlapping) a successful one: a sampled match cut short and then a full
+		// sampled match starting k bytes before the cut's end (k = 0: adjacent; k > 0: the two overlap, as "ab"+"aba" = "ababa"
+		// for the suffix literal "aba"). Candidate loops that resume after a rejected candidate, and engines that keep
+		// per-attempt state (capture slots, visited entries), are only exercised by such inputs.
+		b := 40
+		first := sampleMatch(r, re, nil, &b)
+		if r.Chance(40) && len(first) > 2 {
+			// m[j:] + m[k:], j < k: the head of the match is missing (a candidate that fails) and its tail is repeated
+			// ("aba" + "ba" = "ababa": the occurrence at 0 has nothing before it, the overlapping one at 2 has)
+			j := r.Intn(len(first) - 1)
+			k := j + 1 + r.Intn(len(first)-j-1)
+			h = append(append(h, first[j:]...), first[k:]...)
+			if r.Chance(30) {
+				h = append(h, first[k:]...)
+			}
+			return h
+		}
+		b = 40
+		second := sampleMatch(r, re, nil, &b)
+		if r.Chance(40) {
+			h = append(h, ctxBytes[r.Intn(len(ctxBytes))]...)
+		}
+		if len(first) > 1 {
+			cut := 1 + r.Intn(len(first)-1)
+			h = append(h, first[:cut]...)
+			if r.Chance(50) && len(second) > 1 {
+				// overlap: drop from the front of `second` a prefix that equals a suffix of what was written, if there is one
+				for k := min(len(h), len(second)-1); k > 0; k-- {
+					if bytes.HasSuffix(h, second[:k]) {
+						second = second[k:]
+						break
+					}
+				}
+			} else if r.Chance(30) {
+				h = append(h, "_ x\n"[r.Intn(4)])
+			}
+		}
+		h = append(h, second...)
+		if r.Chance(30) {
 			h = append(h, ctxBytes[r.Intn(len(ctxBytes))]...)
 		}
 	default:
